@@ -532,6 +532,8 @@ def run(ctx):
             mism += [si * SH + b for b in bad]
     reported = set()
     n_model_only = 0
+    n_strict = 0
+    deferred = []
     for m in mism:
         ci, bi = owners[m]
         if ci in reported:
@@ -547,8 +549,22 @@ def run(ctx):
         if res["kind"] == "ok" and common.kf_match(PROP, key) is not None:
             ctx.violation({"kind": "property-failure-via-model", "case": slim(case, res)}, key=key)
             continue
+        # the model expects another route (e.g. an explicitly requested direct method that the implementation answered
+        # with a rank-truncated Lanczos result, which the direct predicate tolerates as "rank-deficient by design"): judge
+        # the observed factors strictly - if they do not factorise the operator this IS a failing input
+        if res["kind"] == "ok" and is_psd_cell(case["cell"]) and case.get("kind", "plain") != "mixed":
+            strict = O.predicate_members(case, res, tol_direct=TOL_DIRECT, tol_krylov=TOL_KRYLOV, strict=True)
+            if strict:
+                n_strict += 1
+                what2 = strict + " (the specified route for this query is not a rank-truncated Krylov one" + (
+                    ": " + explain_case(ctx, lits[m])[:160] if n_strict <= 5 else "") + ")"
+                ctx.violation({"kind": "property-failure", "case": slim(case, res), "what": what2}, key=failure_key(case, res, strict))
+                continue
         n_model_only += 1
-        reason = explain_case(ctx, lits[m])
+        deferred.append((m, case, res, bi))
+    # disagreements without a failing input are reported after those for which one was found (explain at most 30 of them)
+    for j, (m, case, res, bi) in enumerate(deferred):
+        reason = explain_case(ctx, lits[m]) if j < 30 else "(not explained: more than 30 disagreements)"
         ctx.violation({"kind": "model-implementation-disagreement", "case": slim(case, res), "member": list(bi),
                        "coq": reason, "correspondence": "coq/C06/Check.v check (model on PrimFloat vs implementation)"},
                       key=None, no_input=True)
